@@ -482,15 +482,18 @@ func repTy(t *Ty, n int) []*Ty {
 }
 
 func (g *gen) tryOf(d int, f func(int) *Node) *Node {
+	// any mix of failing and succeeding arguments, in any order: the first success wins
 	n := nCall("try")
-	if g.pct(60) {
-		n.A = append(n.A, g.failing(d-1))
+	ok := false
+	for i, k := 0, 1+g.pick(4); i < k; i++ {
+		if g.pct(45) {
+			n.A = append(n.A, g.failing(d-1))
+		} else {
+			n.A = append(n.A, f(d-1))
+			ok = true
+		}
 	}
-	if g.pct(25) {
-		n.A = append(n.A, g.failing(d-1))
-	}
-	n.A = append(n.A, f(d-1))
-	if g.pct(20) {
+	if !ok && g.pct(85) {
 		n.A = append(n.A, f(d-1))
 	}
 	return n
@@ -844,6 +847,19 @@ func (g *gen) objectCtor(d int) *Node {
 		switch y := g.pick(10); {
 		case y < 5:
 			it.Style, it.Name = KeyIdent, key
+			if g.pct(20) {
+				// a bare identifier is a literal key even when a variable of that name exists
+				nm := []string{"s0", "n1", "ls", "k1"}[g.pick(4)]
+				if len(g.scope) > 0 && g.pct(60) {
+					nm = g.scope[g.pick(len(g.scope))].name
+				}
+				if !used[nm] {
+					delete(used, key)
+					key = nm
+					used[key] = true
+					it.Name = key
+				}
+			}
 		case y < 8:
 			it.Style, it.Key = KeyQuoted, nStr(key)
 		default:
